@@ -126,6 +126,19 @@ func Run(out, mode string) {
 		watch.Threshold = 20 * time.Second
 	}
 	stuck := 0
+	if mode == "c03" {
+		// directed: a FIFO cache that another reader of the stream has used; the reader's own block is
+		// handed out by the cache (and kept there), the next lookup meets a block of the other reader
+		f := bgz.BuildFile([]int{2, 8}, true, 1, false)
+		ops := []bgz.ROp{{K: "read", N: 0}, {K: "setcache", Kind: "FIFO", Cap: 3, Pre: true}, {K: "read", N: 13}, {K: "read", N: 1}, {K: "readbyte"},
+			{K: "seek", M: 2}, {K: "read", N: 7}, {K: "seek", M: 2}, {K: "readbyte"}, {K: "seek", M: 2}, {K: "seek", M: 1, Off: 8}, {K: "readbyte"}, {K: "close"}}
+		for _, rd := range rds {
+			probe := tr.Create("/dev/null")
+			ref := bgz.RunReader(probe, bgz.RScenario{Class: "ref", File: f, CutLen: -1, RD: rd, Ops: stripCache(ops)})
+			probe.Close()
+			bgz.RunReader(t, bgz.RScenario{Class: "cached", File: f, CutLen: -1, RD: rd, Ops: ops, Ref: ref})
+		}
+	}
 	for _, sh := range shapes(r, nshapes) {
 		for _, eof := range []bool{true, false} {
 			f := bgz.BuildFile(sh, eof, []int{-1, 0, 1, 9}[r.Intn(4)], r.Intn(2) == 0)
